@@ -78,6 +78,11 @@ pub fn gen(tier: &str, r: &mut Rng) -> Vec<String> {
             }
         }
     }
+    // SEQRES records (their check adds residues to the structure: it must do so at every level alike)
+    for _ in 0..crate::budget(tier, 40, 800) {
+        let lines = pdbtext::gen_seqres_doc(r);
+        out.push(format!("c07 read pdb {}", enc_bytes((lines.join("\n") + "\n").as_bytes())));
+    }
     // save: structures with validation diagnostics of every class
     let n_save = crate::budget(tier, 60, 600);
     for k in 0..n_save {
